@@ -167,6 +167,20 @@ def check(env, rep, tier):
             rty = prog.ty(af["locals"][1]["ty"], subst)[2]
             I.ensure(st, a0.place, rty, "self")
             respv = I.ensure(st, a0.place.extend(("f", R["response"])), I.field_types(rty)[R["response"]], "self.response")
+            # materialise the prepared reply's correlation fields so that any write to them is visible
+            if isinstance(respv, EnumV):
+                rp = a0.place.extend(("f", R["response"]), ("v", 1))
+                crt = I.field_types(rty)[R["response"]][2][0]
+                I.write(st, a0.place.extend(("f", R["response"])), EnumV(respv.path, {0: StructV([]), 1: StructV([I.mat(st, crt, "reply")])}, respv.ty))
+                mp = rp.extend(("f", 0), ("f", 0))
+                pkt_ty = I.field_types(crt)[0]
+                I.ensure(st, mp, pkt_ty, "reply.message")
+                I.ensure(st, mp.extend(("f", P["header"])), I.field_types(pkt_ty)[P["header"]], "reply.header")
+                corr0 = (I.ensure(st, mp.extend(("f", P["header"]), ("f", H["ver_type_tkl"])), ("int", 8, False), "reply.b0"),
+                         I.ensure(st, mp.extend(("f", P["header"]), ("f", H["message_id"])), ("int", 16, False), "reply.mid"),
+                         I.ensure(st, mp.extend(("f", P["token"])), I.field_types(pkt_ty)[P["token"]], "reply.token"))
+            else:
+                corr0 = None
             before = I.read(st, a0.place)
             cf_calls = []
 
@@ -197,6 +211,9 @@ def check(env, rep, tier):
                         em = err.fields[E["message"]]
                         good = good and isinstance(pl, VecV) and isinstance(em, VecV) and pl.len == em.len
                         good = good and bool(s.ghost.get(("inj", "cf")))
+                        # correlation fields of the reply are left alone
+                        good = good and corr0 is not None and h.fields[H["ver_type_tkl"]] == corr0[0] \
+                            and h.fields[H["message_id"]] == corr0[1] and pkt.fields[P["token"]] == corr0[2]
                         # message (request) untouched, correlation fields untouched
                         good = good and after.fields[R["message"]] == before.fields[R["message"]]
                     if not good:
